@@ -157,34 +157,49 @@ def run_history(xs, ops):
     """-> None, or (sig, msg, k) where k = index of the diverging op (len(ops) = final check)."""
     ll = LazyList(iter(list(xs)))
     cp = None
+    cp2 = None
     for k, op in enumerate(ops):
         op = tuple(op)
         if op[0] == "mkcopy":
             cp = deep_copy(ll)
             continue
+        if op[0] == "mkcopy2":      # a copy of the copy (whatever state the copy is in)
+            if cp is not None:
+                cp2 = deep_copy(cp)
+            continue
         if op[0] == "c":
             if cp is None:
                 continue
             r = observe(cp, xs, tuple(op[1:]))
+        elif op[0] == "d":
+            if cp2 is None:
+                continue
+            r = observe(cp2, xs, tuple(op[1:]))
         else:
             r = observe(ll, xs, op)
         if r is None:
             continue
         got, want = r
         if got != want:
-            on_copy = op[0] == "c"
+            on_copy = op[0] in ("c", "d")
+            second = op[0] == "d"
             if on_copy:
                 op = tuple(op[1:])
             kind = op[0]
             if kind == "slice":
                 kind = "slice-" + slice_class(op, len(xs))
             if on_copy:
-                kind = "copy." + kind
+                kind = ("copy-of-copy." if second else "copy.") + kind
             what = "raises" if isinstance(got, str) and got.startswith("raises:") else "value"
             prior = "after-" + (str(ops[k - 1][0]) if k else "nothing")
             return (f"C13:{kind}:{what}", f"xs={xs!r} history={list(map(list, ops[:k + 1]))!r}: observation {list(op)!r} "
                     f"returned {got!r}, the list gives {want!r} ({prior})", k)
     try:
+        if cp2 is not None:
+            final2c = norm(cp2.listify())
+            if final2c != norm(xs):
+                return ("C13:copy-of-copy-denotation-changed", f"xs={xs!r} history={list(map(list, ops))!r}: the copy of the copy now "
+                        f"enumerates {final2c!r}", len(ops))
         if cp is not None:
             finalc = norm(cp.listify())
             if finalc != norm(xs) or norm(list(cp)) != norm(xs):
@@ -202,7 +217,7 @@ def run_history(xs, ops):
 
 
 def _base(o):
-    return o[1] if o[0] == "c" else o[0]
+    return o[1] if o[0] in ("c", "d") else o[0]
 
 
 def _nontrivial(ops):
@@ -235,6 +250,7 @@ def _shard_exh(rec, arg):
 INTERLEAVE_OPS = [
     ("idx", 0), ("idx", 1), ("partial", 1), ("len",), ("mkcopy",),
     ("c", "idx", 0), ("c", "idx", 1), ("c", "partial", 1), ("c", "partial", 2), ("c", "listify"), ("c", "reversed"),
+    ("mkcopy2",), ("d", "idx", 0), ("d", "listify"),
 ]
 
 
@@ -418,7 +434,7 @@ def replay(case):
     ops = [tuple(o) for o in case["ops"]]
     for o in ops:
         if not o or o[0] not in {"idx", "idx_rel", "neg", "slice", "len", "iter", "partial", "bool", "in", "eq_list",
-                                 "eq_lazy", "count", "reversed", "copy", "has_ind", "listify", "mkcopy", "c"}:
+                                 "eq_lazy", "count", "reversed", "copy", "has_ind", "listify", "mkcopy", "c", "mkcopy2", "d"}:
             return None
     r = run_history(xs, ops)
     return (r[0], r[1]) if r else None
